@@ -111,8 +111,8 @@ Fixpoint cguard (e : expr) : bool :=
           else true)
   | EF2 c a b =>
       cguard a && cguard b
-      && (if is_rel_eq c then (9 <=? clev a) && (9 <? clev b)
-          else if is_relational c then (10 <=? clev a) && (10 <? clev b)
+      && (if is_rel_eq c then pos_le a SP_Rel 9 && pos_le b SP_Rel 10
+          else if is_relational c then pos_le a SP_Rel 10 && pos_le b SP_Rel 11
           else true)
   | EFN _ l => forallb cguard l
   | EFunSym _ l => forallb cguard l
